@@ -26,14 +26,16 @@ EXTENDS MLCore, TLC, Json
 
 Phases == <<"label", "enchdr", "body", "userstate">>       \* in stream order
 Dirs == {"i2h", "h2i"}
-Fails == {"none", "cut", "auth", "nodecap", "usercap", "veto", "versions", "label"}
+\* "busy": the host already has the maximum number of push/pull exchanges in progress: it refuses the next one on
+\* its type byte, before reading the state (so neither side learns anything and Join reports a failure)
+Fails == {"none", "cut", "auth", "nodecap", "usercap", "veto", "versions", "label", "busy"}
 
 \* which side reads direction d
 Reader(d) == IF d = "i2h" THEN "H" ELSE "I"
 
 \* a case: failure f in direction d at phase p (p only matters for cut)
 \* outcome: who merged
-ReadFailure(f) == f \in {"cut", "auth", "nodecap", "usercap", "label"}
+ReadFailure(f) == f \in {"cut", "auth", "nodecap", "usercap", "label", "busy"}
 Outcome(f, d, p) ==
   LET hReadOk == ~(d = "i2h" /\ ReadFailure(f))        \* H read and accepted I's message
       hReplied == hReadOk                               \* H replies only after a good read (an error reply otherwise)
@@ -76,6 +78,7 @@ PNext == /\ pp.kind = "none"
               /\ (f = "none" => d = "i2h")
               /\ (f = "auth" => sealed)
               /\ (f = "label" => labeled /\ d = "i2h")
+              /\ (f = "busy" => d = "i2h")
               /\ (f = "veto" => join)
               /\ (Phases[p] = "label" => labeled)
               /\ (Phases[p] = "enchdr" => sealed)
